@@ -27,7 +27,7 @@ func c20Len() int {
 
 // The three validation patterns accept exactly the documented shape (decided by z3 as equality of
 // regular languages on strings up to the stated length).
-//verif:entry HarnessQueryPathShape unwind=4 reach=valid,invalid solverms=60000
+//verif:entry HarnessQueryPathShape unwind=4 conform=12 reach=valid,invalid solverms=60000
 func HarnessQueryPathShape() {
 	s := vrt.String("path")
 	vrt.Assume(len(s) <= c20Len())
@@ -40,7 +40,7 @@ func HarnessQueryPathShape() {
 	}
 }
 
-//verif:entry HarnessEntriesPathShape unwind=4 reach=valid,invalid solverms=60000
+//verif:entry HarnessEntriesPathShape unwind=4 conform=12 reach=valid,invalid solverms=60000
 func HarnessEntriesPathShape() {
 	s := vrt.String("path")
 	vrt.Assume(len(s) <= c20Len())
@@ -53,7 +53,7 @@ func HarnessEntriesPathShape() {
 	}
 }
 
-//verif:entry HarnessQueryParametersShape unwind=4 reach=valid,invalid solverms=60000
+//verif:entry HarnessQueryParametersShape unwind=4 conform=12 reach=valid,invalid solverms=60000
 func HarnessQueryParametersShape() {
 	s := vrt.String("params")
 	vrt.Assume(len(s) <= c20Len())
@@ -72,7 +72,7 @@ var c20Pieces = []string{"a", "qc", "A-b_9", "x_", "-"}
 var c20Entries = []string{"e", "a/b", "cfg-1/sub_2/x", "_"}
 var c20RunTypeNames = []string{"PHYSICS", "ANY", "NULL", "CALIBRATION_FHR", "physics", "NOPE", "PHYSICS "}
 
-//verif:entry HarnessParsePrintRoundTrip unwind=8 reach=parsed,rejected
+//verif:entry HarnessParsePrintRoundTrip unwind=8 conform=12 reach=parsed,rejected
 func HarnessParsePrintRoundTrip() {
 	comp := c20Pieces[vrt.IntRange("comp", 0, len(c20Pieces)-1)]
 	role := c20Pieces[vrt.IntRange("role", 0, len(c20Pieces)-1)]
